@@ -28,9 +28,9 @@
 #include "dd_dtw_openmp.h"
 #include "simomp.h"
 
-#define MAXS 24
-#define MAXLEN 16
-#define MAXOUT 1024
+#define MAXS 48
+#define MAXLEN 40
+#define MAXOUT 2048
 #define NANPAT 0x7ff8dead0000beefull
 #define CANARY 0x7ff8c0dec0dec0deull
 
@@ -85,15 +85,19 @@ static void gen_case(case_t *c, uint64_t seed) {
     int is_ndim = c->fn & 1;
     c->ndim = is_ndim ? 1 + (int)rnd(&w, 3) : 1;
     int form = c->fn / 2;            /* 0 ptrs, 1 matrix, 2 matrices */
-    c->nr = 1 + (long)rnd(&w, 9);
+    /* swarm sizing: most cases are tiny (index-plan and privatisation bugs need few rows), one in 32 is an order of
+       magnitude larger (more rows than any small thread count, long series, many chunks per thread) */
+    int big = rnd(&w, 32) == 0;
+    long maxn = big ? 12 : 9, minn = big ? 10 : 1, maxl = big ? 20 : 10, minl = big ? 8 : 1;
+    c->nr = minn + (long)rnd(&w, (uint64_t)maxn);
     c->nc = c->nr;
-    if (form == 2) c->nc = 1 + (long)rnd(&w, 9);
+    if (form == 2) c->nc = minn + (long)rnd(&w, (uint64_t)maxn);
     c->ns = form == 2 ? c->nr + c->nc : c->nr;
-    long lr = 1 + (long)rnd(&w, 10), lc = form == 2 ? 1 + (long)rnd(&w, 10) : lr;
+    long lr = minl + (long)rnd(&w, (uint64_t)(maxl - minl + 1)), lc = form == 2 ? minl + (long)rnd(&w, (uint64_t)(maxl - minl + 1)) : lr;
     int grid = (int)rnd(&w, 3);      /* 0: small ints (many ties), 1: halves, 2: doubles */
     long minlen = 1000;
     for (long i = 0; i < c->ns; i++) {
-        long L = form == 0 ? 1 + (long)rnd(&w, 10) : (i < c->nr ? lr : lc);
+        long L = form == 0 ? minl + (long)rnd(&w, (uint64_t)(maxl - minl + 1)) : (i < c->nr ? lr : lc);
         c->len[i] = L;
         if (L < minlen) minlen = L;
         for (long k = 0; k < L * c->ndim; k++) {
@@ -393,6 +397,7 @@ static void run_parallel(const case_t *c, workspace *w, const trace_t *tr, int r
 
 /* ---- bookkeeping ---------------------------------------------------------------------------- */
 static struct {
+    uint64_t big_cases;
     uint64_t runs, par_runs, violations, serial_crashed, serial_rejected, events, switches, forced, chunks, denied, stalls, race_directed, fair, nontrivial;
     uint64_t by_fn[6], by_loop[SIMOMP_LOOP_NKINDS], by_pre[SIMOMP_PRE_NKINDS], t1, t_gt_rows, t64, no_chunk_threads, racy_runs, racy_addrs, empty_block, leaks, heapdamage, info_settings, info_block;
     uint64_t digest;
@@ -407,6 +412,7 @@ static void account(const case_t *c, const result_t *r) {
     if (c->T == 1) A.t1++; if (c->T > rows) A.t_gt_rows++; if (c->T == 64) A.t64++;
     if (r->racy) { A.racy_runs++; A.racy_addrs += (uint64_t)r->racy; }
     if (ser_len == 0) A.empty_block++;
+    if (c->nr >= 10) A.big_cases++;
     if (r->info_settings) A.info_settings++; if (r->info_block) A.info_block++;
     long leaks = 0; int hc = simomp_heap_check(&leaks);
     if (hc & 4) A.leaks += (uint64_t)leaks; if (hc & 3) { A.heapdamage++; if (getenv("C07_DUMP_HEAPDAMAGE")) { FILE *f = fopen(getenv("C07_DUMP_HEAPDAMAGE"), "a"); if (f) { write_case(f, c, "heap-damage-info", 0, 0); fclose(f); } } }
@@ -435,9 +441,9 @@ static void write_summary(const char *mode, int exitcode, const char *vclass) {
     fprintf(fsum, "\"by_fn\":[%llu,%llu,%llu,%llu,%llu,%llu],", (unsigned long long)A.by_fn[0], (unsigned long long)A.by_fn[1], (unsigned long long)A.by_fn[2], (unsigned long long)A.by_fn[3], (unsigned long long)A.by_fn[4], (unsigned long long)A.by_fn[5]);
     fprintf(fsum, "\"by_loop\":[%llu,%llu,%llu,%llu,%llu,%llu],", (unsigned long long)A.by_loop[0], (unsigned long long)A.by_loop[1], (unsigned long long)A.by_loop[2], (unsigned long long)A.by_loop[3], (unsigned long long)A.by_loop[4], (unsigned long long)A.by_loop[5]);
     fprintf(fsum, "\"by_preempt\":[%llu,%llu,%llu,%llu,%llu],", (unsigned long long)A.by_pre[0], (unsigned long long)A.by_pre[1], (unsigned long long)A.by_pre[2], (unsigned long long)A.by_pre[3], (unsigned long long)A.by_pre[4]);
-    fprintf(fsum, "\"threads_1\":%llu,\"threads_gt_rows\":%llu,\"threads_64\":%llu,\"threads_without_chunk\":%llu,\"racy_runs\":%llu,\"racy_addrs\":%llu,\"empty_block\":%llu,\"leaked_blocks\":%llu,\"heap_damage_runs\":%llu,\"info_settings_struct_differs\":%llu,\"info_block_struct_differs\":%llu,",
+    fprintf(fsum, "\"threads_1\":%llu,\"threads_gt_rows\":%llu,\"threads_64\":%llu,\"threads_without_chunk\":%llu,\"racy_runs\":%llu,\"racy_addrs\":%llu,\"empty_block\":%llu,\"leaked_blocks\":%llu,\"heap_damage_runs\":%llu,\"info_settings_struct_differs\":%llu,\"info_block_struct_differs\":%llu,\"big_cases\":%llu,",
             (unsigned long long)A.t1, (unsigned long long)A.t_gt_rows, (unsigned long long)A.t64, (unsigned long long)A.no_chunk_threads, (unsigned long long)A.racy_runs, (unsigned long long)A.racy_addrs,
-            (unsigned long long)A.empty_block, (unsigned long long)A.leaks, (unsigned long long)A.heapdamage, (unsigned long long)A.info_settings, (unsigned long long)A.info_block);
+            (unsigned long long)A.empty_block, (unsigned long long)A.leaks, (unsigned long long)A.heapdamage, (unsigned long long)A.info_settings, (unsigned long long)A.info_block, (unsigned long long)A.big_cases);
     fprintf(fsum, "\"digest\":\"%016llx\"}\n", (unsigned long long)A.digest);
     fclose(fsum); fclose(fhash); fclose(fdig);
 }
